@@ -1,7 +1,7 @@
 """C14 - search returns sound, ordered, disjoint, longest and complete matches.
 
-M  FindAll.tla: the parallel-attempt find_all loop as coded, TLC-checked clause by clause against Regex.tla
-   (Covers only up to the named deviation EvictEnclosing = open finding F10-C14).
+M  FindAll.tla: the find_all scan loop as coded (one attempt at a time, leftmost first), TLC-checked clause by
+   clause against Regex.tla (Sound, Longest, Ordered, Covers, IsRef).
 G  RegexCases.tla (non-nullable patterns, ghost SearchRef): every (pattern, word) replayed into the
    real find_all; a result different from SearchRef is sent to the acceptor (it may still satisfy
    every clause, in which case it is model drift, not a violation).
@@ -75,8 +75,8 @@ def run(tier: str) -> int:
     wd = workdir(PROP)
     sig = lambda s: tlc.tla_set(tlc.tla_str(c) for c in s)
 
-    invs = ["Sound", "Longest", "Ordered", "OrderedAlways", "CoversUpToEviction"]
-    m = tlc.run("FindAll", tlc.cfg({"Sigma": sig(b["sigma"]), "MaxSize": b["N"], "MaxLen": b["K"], "TailGuard": "TRUE"}, invariants=invs), wd)
+    invs = ["Sound", "Longest", "Ordered", "Covers", "IsRef", "Progress"]
+    m = tlc.run("FindAll", tlc.cfg({"Sigma": sig(b["sigma"]), "MaxSize": b["N"], "MaxLen": b["K"]}, invariants=invs), wd)
     log(f"[C14] M FindAll: {m.distinct} states, {m.wall_s}s, violated={m.violated}")
 
     g = tlc.run(
